@@ -28,6 +28,7 @@ from labtech.types import Storage
 PLAN: Optional[dict] = None
 IN_SAVE = 0
 COUNT = 0
+HIT = 0            # number of faults actually injected in this process
 OPLOG: list = []
 
 
@@ -54,6 +55,8 @@ def op(name: str, half_write=None) -> None:
     if not p or p['mode'] not in ('raise', 'kill') or p['at'] != COUNT:
         return
     if p['mode'] == 'raise':
+        global HIT
+        HIT += 1
         raise OSError(f'injected fault at operation {COUNT} ({name})')
     if p.get('half') and half_write is not None:
         half_write()
@@ -80,7 +83,18 @@ class FaultFile:
 
     def close(self):
         if not self._f.closed:
-            op(f'close:{self._label}')
+            try:
+                op(f'close:{self._label}')
+            except OSError:
+                # a close that fails is a flush that failed: part of the data never reached the file
+                try:
+                    self._f.flush()
+                    size = self._f.tell()
+                    self._f.truncate(size // 2)
+                    self._f.close()
+                except Exception:   # noqa
+                    pass
+                raise
         return self._f.close()
 
     def __enter__(self):
@@ -157,6 +171,8 @@ class _LineInjector:
             if self.p['mode'] != 'line-record' and self.n == self.p['at']:
                 sys.settrace(None)
                 if self.p['mode'] == 'line-raise':
+                    global HIT
+                    HIT += 1
                     raise OSError(f'injected fault at line {self.lines[-1]}')
                 _die(self.p.get('sig', 9))
         return self.local
